@@ -116,11 +116,26 @@ func NewMultiEndpoint(b *MultiEndpointOptions) (MultiEndpoint, error) {
 	me.Lock()
 	defer me.Unlock()
 	eMap := make(map[string]*endpoint)
-	for i, e := range b.Endpoints {
+	for i, e := range uniqueEndpoints(b.Endpoints) {
 		eMap[e] = me.newEndpoint(e, i)
 	}
 	me.endpoints = eMap
 	return me, nil
+}
+
+// uniqueEndpoints returns the list without repeated entries: an endpoint listed more
+// than once keeps the position (priority) of its first occurrence.
+func uniqueEndpoints(endpoints []string) []string {
+	seen := make(map[string]struct{}, len(endpoints))
+	res := make([]string, 0, len(endpoints))
+	for _, e := range endpoints {
+		if _, ok := seen[e]; ok {
+			continue
+		}
+		seen[e] = struct{}{}
+		res = append(res, e)
+	}
+	return res
 }
 
 type multiEndpoint struct {
@@ -152,6 +167,7 @@ func (me *multiEndpoint) SetEndpoints(endpoints []string) error {
 	if len(endpoints) == 0 {
 		return errors.New("endpoints list cannot be empty")
 	}
+	endpoints = uniqueEndpoints(endpoints)
 	newEndpoints := make(map[string]struct{})
 	for _, v := range endpoints {
 		newEndpoints[v] = struct{}{}
